@@ -612,19 +612,34 @@ func ruleC07c(c *Ctx) {
 		}
 		c.check(okReset, name, "Acquire"+kind+" is reset onto the wrapped writer", p.ipos(i), "Reset(httpWriter) with the writer that carries the label", "the compressor writes to a different target than the writer that carries the Content-Encoding header")
 		// the encoding recorded for Close equals the constant of this branch
-		okRec := false
-		for _, ins := range i.Block().Instrs {
-			if st, ok := ins.(*ssa.Store); ok {
-				if fa, ok := st.Addr.(*ssa.FieldAddr); ok && fieldOfAddr(fa).Name() == "encoding" {
-					if s, ok := constStr(st.Val); ok && s == enc {
-						okRec = true
-					}
-					if strip(st.Val) == ssa.Value(encParam) {
-						okRec = true
-					}
-				}
+		// every path from the acquire to a return records this branch's constant (or the argument, which equals it
+		// here), and no other value is recorded on the way
+		right := map[ssa.Instruction]bool{}
+		wrong := false
+		reach := reachableAfter(i.Block(), nil)
+		reach[i.Block()] = true
+		eachInstr(ctor, func(ins ssa.Instruction) {
+			st, ok := ins.(*ssa.Store)
+			if !ok || !reach[ins.Block()] {
+				return
 			}
-		}
+			if ins.Block() == i.Block() && indexInBlock(ins) < indexInBlock(i) {
+				return
+			}
+			fa, ok := st.Addr.(*ssa.FieldAddr)
+			if !ok || fieldOfAddr(fa) == nil || fieldOfAddr(fa).Name() != "encoding" {
+				return
+			}
+			if s, ok := constStr(st.Val); ok && s == enc {
+				right[ins] = true
+			} else if strip(st.Val) == ssa.Value(encParam) {
+				right[ins] = true
+			} else {
+				wrong = true
+			}
+		})
+		min, _, okPaths := countOnPaths(ctor, i, right)
+		okRec := okPaths && min >= 1 && !wrong
 		c.check(okRec, name, "encoding recorded for Close matches ("+enc+")", p.ipos(i), "c.encoding = "+enc+" in the same branch", "the encoding remembered for Close differs from the codec acquired: Close releases it to the wrong pool")
 	})
 	if nAcq == 0 {
